@@ -38,6 +38,24 @@ def pin_scene(order, dx2, dy3, pq):
     return ops
 
 
+def hug_scene(order, dxf, dyo):
+    """an obstacle O; connector C joins two pins left of O's right side and has to go round it, hugging that side; connector F leaves a
+    pin that lies exactly on the line of that side (dxf = 0) and runs down it for a stretch before turning away"""
+    S = {1: (8, 30 + dyo, 28, 50 + dyo, None), 2: (22, 18, 26, 22, (4, 2, 8)), 3: (22, 58 + dyo, 26, 62 + dyo, (4, 2, 8)),
+         4: (26 + dxf, 10, 30 + dxf, 14, (2, 4, 2)), 5: (48, 22, 52, 26, (0, 2, 4))}
+    ops = []
+    for sid, (x1, y1, x2, y2, pin) in S.items():
+        ops.append([1, sid, x1, y1, x2, y2])
+        if pin:
+            ops.append([2, sid, 1, pin[0], pin[1], 1, 0, pin[2], 0])
+    C = {'C': (2, 3), 'F': (4, 5)}
+    for k, name in enumerate(order):
+        a, b = C[name]
+        ops.append([4, 21 + k, 1, a, 1, 1, b, 1])
+    ops.append([13])
+    return ops
+
+
 def pin_family(d, quick, LS):
     """records (as for the scene families) of pin-attached connectors, replayed through the object-level harness"""
     import itertools
@@ -50,6 +68,10 @@ def pin_family(d, quick, LS):
                 for pq in ((0,) if quick else (0, 4)):
                     for buf in (0, 1):
                         hists.append(pin_scene(order, dx2, dy3, pq)); meta.append(buf)
+    for order in ('CF', 'FC'):
+        for dxf in (0, 2, -2):
+            for dyo in ((0,) if quick else (0, 4)):
+                hists.append(hug_scene(order, dxf, dyo)); meta.append(0)
     scen = os.path.join(d, 'pins.txt')
     with open(scen, 'w') as f:
         for h, buf in zip(hists, meta):
